@@ -54,18 +54,21 @@ func c03Card(suit byte, rank int64) string {
 	return string([]byte{suit, c03ByteOf(rank)})
 }
 
-// c03SymCard: a symbolic card of the deck (deck 0: ranks 2..A, deck 1: 6..A)
+// c03SymCard: a symbolic card of the deck (deck 0: ranks 2..A, deck 1: 6..A); the rank and the suit
+// index are the unknowns, the card string is derived from them.
 func c03SymCard(deck int) (string, byte, int64) {
-	s := vByte("suit")
-	vAssume(vOr(vOr(s == 'S', s == 'H'), vOr(s == 'D', s == 'C')))
-	rb := vByte("rank")
-	r := c03RankOf(rb)
+	si := vInt64("suit")
+	vAssume(si >= 0)
+	vAssume(si <= 3)
+	s := byte(vIte(si == 0, 'S', vIte(si == 1, 'H', vIte(si == 2, 'D', 'C'))))
+	r := vInt64("rank")
 	lo := int64(2)
 	if deck == 1 {
 		lo = 6
 	}
-	vAssume(r >= lo) // r == 0 for bytes that are no rank
-	return string([]byte{s, rb}), s, r
+	vAssume(r >= lo)
+	vAssume(r <= 14)
+	return string([]byte{s, c03ByteOf(r)}), s, r
 }
 
 type c03T struct {
@@ -240,7 +243,7 @@ func c03Lo(deck int) int64 {
 }
 
 // Harness_C03_Factor: step 1 for one symbolic hand in arbitrary input order.
-func Harness_C03_Factor(table int, deck int) {
+func Harness_C03_Factor(table int, deck int, sortedInput int) {
 	pr := c03Table(table)
 	var cards [5]string
 	var s [5]byte
@@ -249,6 +252,9 @@ func Harness_C03_Factor(table int, deck int) {
 		cards[i], s[i], r[i] = c03SymCard(deck)
 		for j := 0; j < i; j++ {
 			vAssume(!vAnd(s[i] == s[j], r[i] == r[j])) // five different cards
+		}
+		if sortedInput != 0 && i > 0 {
+			vAssume(r[i-1] >= r[i]) // quick-tier bound: input given in non-increasing rank order
 		}
 	}
 	if deck == 1 {
